@@ -155,7 +155,10 @@ class Distributor(object):
     def countIdealOverlaps(self, nodes):
         iTree = IntervalTree()
         for node in nodes:
-            iTree.addi(node.idealLeft(), node.idealRight(), data=node)
+            # a label of width 0 occupies an empty interval, which the tree
+            # does not accept (and which overlaps nothing)
+            if node.idealLeft() < node.idealRight():
+                iTree.addi(node.idealLeft(), node.idealRight(), data=node)
 
         for node in nodes:
             overlaps = iTree.overlap(node.idealLeft(), node.idealRight())
